@@ -638,37 +638,42 @@ def order_leak_sites(ctx, crates=('pie', 'pie_graph')):
     return out
 
 
+def order_site_sanitised(ctx, b, c):
+    """Is the order produced at call c (a hash-container iteration) destroyed by a sort before any other use?"""
+    ok = False
+    why = 'iteration order of a seeded hash container flows into the build'
+    # follow the value forward: (adaptors)* -> collect into Vec -> every use of the Vec dominated by a sort of it
+    ADAPT = ('std::iter::Iterator::map', 'std::iter::IntoIterator::into_iter', 'std::iter::Iterator::cloned', 'std::iter::Iterator::copied')
+    if c.dest[1]:
+        uses = []
+    else:
+        uses = b.forward_calls(c.dest[0], through=ADAPT)
+    colls = [u for u, _ in uses if u.qname == 'std::iter::Iterator::collect' and len(u.gargs) > 1 and u.gargs[1].startswith('std::vec::Vec<')]
+    other = [u for u, _ in uses if u.qname not in ADAPT and u.qname != 'std::iter::Iterator::collect']
+    if other or not uses:
+        why = 'the unordered iterator is consumed by %s' % (other[0].qname if other else 'nothing recognised')
+    elif len(colls) == 1 and not colls[0].dest[1]:
+        col = colls[0]
+        vuses = [u for u, _ in b.forward_calls(col.dest[0], through=('std::ops::DerefMut::deref_mut', 'std::ops::Deref::deref'))]
+        sorts = [u for u in vuses if u.qname.startswith('core::slice::sort')]
+        non = [u for u in vuses if not u.qname.startswith('core::slice::sort') and u.qname not in ('std::ops::DerefMut::deref_mut', 'std::ops::Deref::deref')]
+        if sorts:
+            sb = {s_.bb for s_ in sorts}
+            ok = all(b.must_before(u.bb, lambda n: n in sb) is None for u in non)
+            why = '' if ok else 'the collected vector is used before it is sorted'
+        else:
+            why = 'the collected vector is never sorted'
+    else:
+        why = 'the unordered iterator is collected into %s' % [u.gargs[1:2] for u, _ in uses if u.qname == 'std::iter::Iterator::collect']
+    return ok, why
+
+
 def rule_determinism(ctx):
     R, F = ctx.R, ctx.F
     P = ('C16',)
     sites = order_leak_sites(ctx)
     for b, c in sites:
-        # sanitizer: the order is destroyed by a sort on unique ranks before any other use
-        ok = False
-        why = 'iteration order of a seeded hash container flows into the build'
-        # follow the value forward: (adaptors)* -> collect into Vec -> every use of the Vec dominated by a sort of it
-        ADAPT = ('std::iter::Iterator::map', 'std::iter::IntoIterator::into_iter', 'std::iter::Iterator::cloned', 'std::iter::Iterator::copied')
-        if c.dest[1]:
-            uses = []
-        else:
-            uses = b.forward_calls(c.dest[0], through=ADAPT)
-        colls = [u for u, _ in uses if u.qname == 'std::iter::Iterator::collect' and len(u.gargs) > 1 and u.gargs[1].startswith('std::vec::Vec<')]
-        other = [u for u, _ in uses if u.qname not in ADAPT and u.qname != 'std::iter::Iterator::collect']
-        if other or not uses:
-            why = 'the unordered iterator is consumed by %s' % (other[0].qname if other else 'nothing recognised')
-        elif len(colls) == 1 and not colls[0].dest[1]:
-            col = colls[0]
-            vuses = [u for u, _ in b.forward_calls(col.dest[0], through=('std::ops::DerefMut::deref_mut', 'std::ops::Deref::deref'))]
-            sorts = [u for u in vuses if u.qname.startswith('core::slice::sort')]
-            non = [u for u in vuses if not u.qname.startswith('core::slice::sort') and u.qname not in ('std::ops::DerefMut::deref_mut', 'std::ops::Deref::deref')]
-            if sorts:
-                sb = {s_.bb for s_ in sorts}
-                ok = all(b.must_before(u.bb, lambda n: n in sb) is None for u in non)
-                why = '' if ok else 'the collected vector is used before it is sorted'
-            else:
-                why = 'the collected vector is never sorted'
-        else:
-            why = 'the unordered iterator is collected into %s' % [u.gargs[1:2] for u, _ in uses if u.qname == 'std::iter::Iterator::collect']
+        ok, why = order_site_sanitised(ctx, b, c)
         R.ob('N1-order-taint', b.path + '#' + c.name + '@' + (c.impl_self or c.self_ty or '')[:40] + '#' + b.describe_origins(b.orig_operand(c.args[0])) if c.args else '', ok,
              'hash-set order is erased by sorting on unique ranks before any other use' if ok else '%s: %s' % (c.qname, why), ctx.where(b, c.bb), props=P)
     R.floor('N1', 'order-producing uses of hash containers (all sanitised)', len(sites), 2, props=P)
